@@ -2,7 +2,7 @@
 From Boltons Require Import Lib.Prelude Lib.C14_Text Spec.C14_Spec Model.C14_Model Gen.C14_Gen
   Check.C14_Check Proofs.C14_Table Proofs.C14_Sh Proofs.C14_Cmd Proofs.C14_Int Proofs.C14_Int2 Proofs.C14_Int3
   Proofs.C14_Gzip Gen.C14_Src Proofs.C14_SrcEq Proofs.C14_SrcEqCmd
-  Proofs.C14_Read Proofs.C14_SrcEqSh.
+  Proofs.C14_Read Proofs.C14_SrcEqSh Proofs.C14_IntM Proofs.C14_Cor.
 Open Scope N_scope.
 
 (* (T) obligation over the table regenerated from the source on every run:
@@ -145,6 +145,37 @@ Example C14_int_inhabited :
   = [49; 45; 51; 44; 32; 53; 44; 32; 57; 45; 49; 48] /\
   sort_dedup [5; 1; 2; 3; 9; 9; 10]%Z = [1; 2; 3; 5; 9; 10]%Z.
 Proof. repeat split; vm_compute; reflexivity. Qed.
+
+
+(* ---- round trip for multi-character delimiters --------------------------------- *)
+(* sufficient condition mdelims_ok: the first character of delim is no digit, no
+   space and does not occur in range_delim; the first character of range_delim is
+   no digit and no space (e.g. ", " / "-", "::" / "..", "," / "->") *)
+Theorem C14_int_roundtrip_multi : forall D RD L space,
+  all_nonneg L = true -> mdelims_ok D RD = true ->
+  parse_int_list (format_int_list D RD L space) D RD = Ok (sort_dedup L).
+Proof. exact parse_format_roundtrip_multi. Qed.
+Print Assumptions C14_int_roundtrip_multi.
+
+(* ---- the remaining clauses that Check.c14_holds evaluates, as theorems on the model ---- *)
+Theorem C14_complement_of_format : forall d rd L space start stop,
+  all_nonneg L = true -> delims_ok [d] [rd] = true ->
+  complement_int_list (format_int_list [d] [rd] L space) start stop [d] [rd]
+  = Ok (spec_format [d] [rd] (spec_missing (sort_dedup L) start (window_end (sort_dedup L) start stop))).
+Proof. exact complement_of_format. Qed.
+Print Assumptions C14_complement_of_format.
+
+Theorem C14_int_ranges_of_format : forall d rd L space,
+  all_nonneg L = true -> delims_ok [d] [rd] = true ->
+  int_ranges_from_int_list (format_int_list [d] [rd] L space) [d] [rd] = Ok (spec_ranges L).
+Proof. exact int_ranges_of_format. Qed.
+Print Assumptions C14_int_ranges_of_format.
+
+Theorem C14_gzip_frame : forall (deflate : list N -> N -> list N) mtime b l,
+  exists mid, gzip_bytes deflate mtime b l
+              = [31; 139; 8] ++ mid ++ (le32 (crc32 b) ++ le32 (len_N b mod 4294967296)).
+Proof. exact gzip_bytes_frame. Qed.
+Print Assumptions C14_gzip_frame.
 
 (* ---- gzip -------------------------------------------------------------------- *)
 (* The member framing written by gzip_bytes is undone by gunzip_bytes for every
